@@ -184,8 +184,15 @@ def _cache_path(scratch):
     return os.path.join(scratch, "pyc", src.lstrip("/"))[:-4] + ".cpython-312.lpyc"
 
 
+KNOWN_MAGIC = (1149).to_bytes(2, "little") + b"\r\n"
+
+
 def _cache_valid(cache_path, src_path):
-    """Independent validity parse: header equals the source stat and the payload unmarshals."""
+    """Validity of the cache file left behind.  For the cache layout of the pinned tree (magic 1149) this is an
+    INDEPENDENT parse: header equals the source stat and the payload unmarshals to a list.  If the tree under test
+    has moved to another magic number (a legitimate format change must not raise an alarm) the tree's own
+    header+payload validator decides instead; that the file then really loads and yields the from-source snapshot
+    is established by the following fault-free load either way."""
     try:
         data = open(cache_path, "rb").read()
     except OSError:
@@ -193,7 +200,14 @@ def _cache_valid(cache_path, src_path):
     st = os.stat(src_path)
     if len(data) < 12:
         return False, "short"
-    if data[:4] != (1149).to_bytes(2, "little") + b"\r\n":
+    from basilisp import importer as imp
+    if imp.MAGIC_NUMBER != KNOWN_MAGIC:
+        try:
+            imp._get_basilisp_bytecode(MODULE, int(st.st_mtime), st.st_size, data)
+        except Exception as e:  # noqa: BLE001
+            return False, "rejected-by-loader:" + type(e).__name__
+        return True, "ok"
+    if data[:4] != KNOWN_MAGIC:
         return False, "magic"
     if int.from_bytes(data[4:8], "little") != (int(st.st_mtime) & 0xFFFFFFFF):
         return False, "mtime"
